@@ -18,6 +18,11 @@ def rows(x, instants=False):
     return sorted(r.split(";")) if r else []
 
 
+def zoneless(x):
+    x = re.sub(r"(\bT,-?\d+),-?\d+", r"\1", x)
+    return re.sub(r"(\bPT,[0-9a-f-]+,-?\d+),-?\d+", r"\1", x)
+
+
 def cols(x):
     return x.split("cols=", 1)[1].split(" ")[0] if "cols=" in x else ""
 
@@ -97,6 +102,10 @@ def model_agrees(o, a, m, s=None):
     ordered = " ob=-" not in o
     if not (a.startswith("ok") and m.startswith("ok")):
         return a == m
+    if " gb=-" not in o:
+        # one instant spelled in two zones is one grouping value; which spelling a group shows depends on
+        # the (unstable) sort of the rows inside Reduce
+        a, m = zoneless(a), zoneless(m)
     ref = s if (s and s.startswith(("ok", "limit="))) else m
     mixed = ordered and kinds_mixed(o, ref)
     if ordered and lim and mixed:
